@@ -16,6 +16,70 @@ import (
 func init() {
 	register("replay-bindsig", replayBindSig)
 	register("replay-bind", replayBind)
+	register("replay-paramname", replayParamName)
+}
+
+// concrete spellings of ParamName's character classes: several per class, with different UTF-8 lengths and lead bytes
+var nameClassChars = map[string][]string{
+	"L":  {"a", "Z", "q"},
+	"U":  {"_"},
+	"D":  {"0", "7", "9"},
+	"uL": {"\u00e9", "\u05d0", "\u03b1", "\u4e16", "\U0001d400", "\u00df", "\u0416", "\u00c0", "\u00aa"},
+	"uD": {"\u0663", "\uff13", "\u0967", "\U0001d7d8"},
+	"uS": {"\u00d7", "\u00a1", "\u20ac", "\u2026", "\u00a0", "\u00f7", "\u3000", "\U0001f600", "\u00b2", "\u00bd"},
+	"P":  {"-", ".", "$", "@", "\"", "("},
+	"S":  {" ", "\t"},
+}
+
+// replay-paramname: every name of the ParamName model, each class spelled with every representative in rotation, goes through
+// CheckFnParamDef as the only parameter of a list (and as the second parameter after a plain one).
+func replayParamName(args []string) (any, error) {
+	sum := &Summary{}
+	err := readNDJSON(args[0], func(raw json.RawMessage) error {
+		var v struct {
+			Name  []string `json:"name"`
+			Valid bool     `json:"valid"`
+		}
+		if err := json.Unmarshal(raw, &v); err != nil {
+			return err
+		}
+		sum.Distinct++
+		rounds := 1
+		for _, c := range v.Name {
+			if n := len(nameClassChars[c]); n > rounds {
+				rounds = n
+			}
+		}
+		seen := map[string]bool{}
+		for r := 0; r < rounds; r++ {
+			for shift := 0; shift < 2; shift++ { // second pass: later positions rotate faster, so that pairs of representatives vary
+				var b strings.Builder
+				for i, c := range v.Name {
+					reps := nameClassChars[c]
+					b.WriteString(reps[(r+i*shift*(r+1))%len(reps)])
+				}
+				name := b.String()
+				if seen[name] {
+					continue
+				}
+				seen[name] = true
+				for pos := 0; pos < 2; pos++ {
+					ps := []*runtimev2.Param{{Name: name}}
+					if pos == 1 {
+						ps = []*runtimev2.Param{{Name: "first"}, {Name: name}}
+					}
+					sum.Evaluations++
+					err := runtimev2.CheckFnParamDef(ps)
+					if (err == nil) != v.Valid {
+						sum.miss(fmt.Sprintf("paramname:%q:pos%d", name, pos), map[string]any{"name": name, "classes": v.Name, "want_valid": v.Valid, "got_err": fmt.Sprint(err)})
+					}
+				}
+			}
+		}
+		sum.sample(map[string]any{"classes": v.Name, "valid": v.Valid})
+		return nil
+	})
+	return sum, err
 }
 
 type specParam struct {
